@@ -202,6 +202,11 @@ class _Gen:
             edges = []
             for n in self.shape:
                 w = SPACING * np.exp(r.uniform(-0.5 * np.log(2.0), 0.5 * np.log(2.0), size=n))
+                if r.uniform() < 0.5:
+                    # geometrically graded axis (cells grow or shrink steadily): the mean edge coordinate is then far from the
+                    # midpoint of the domain, unlike for independently jittered widths
+                    g = float(r.uniform(1.05, 1.25)) ** (1 if r.uniform() < 0.5 else -1)
+                    w = SPACING * np.clip(g ** (np.arange(n) - n / 2.0), 0.45, 2.2)
                 e = np.concatenate([[0.0], np.cumsum(w)])
                 edges.append([float(x) for x in (e - e[-1] / 2)])
             self.grid = {"kind": "rect", "edges": edges}
@@ -338,7 +343,7 @@ class _Gen:
             s = hi - lo
             pos_kind = None
             if mode == "size_pos":
-                pos_kind = _choice(r, ["coord", "rel", "prp", "ext"], p=[0.3, 0.4, 0.15, 0.15])
+                pos_kind = _choice(r, ["coord", "rel", "prp", "ext"], p=[0.3, 0.4, 0.15, 0.15] if self.uniform else [0.22, 0.3, 0.33, 0.15])  # physical positions matter most on graded grids (the domain centre is not the mean edge)
                 pos_kind = f.get("pos_kind", pos_kind)
             else:
                 lo, hi = 0, s  # documented: known size without position starts at the lower volume edge
